@@ -261,3 +261,7 @@ impl Drop for Inner {
 
 unsafe impl Send for PagePool {}
 unsafe impl Sync for PagePool {}
+
+#[cfg(kani)]
+#[path = "/verif/units/kani/page_pool.rs"]
+mod verif_kani;
